@@ -741,6 +741,157 @@ func c06(args []string) int {
 		wwsh.Add(fmt.Sprintf("(%d, %s, %s)", D, CoqList(wsz), CoqList(ops)), map[string]interface{}{"part": "wrr-balancer-weight-changes", "D": D, "initial_weights": orig, "final_weights": append([]uint32{}, cur...), "nops": len(ops)})
 	}
 	wwsh.Close()
+
+	// ---------------- part 3c: the BALANCER built while some hosts are UNHEALTHY, which recover later ----------------
+	// refresh queues every host (healthy or not); ChooseHost skips unhealthy picks (up to `total`, then the unweighted
+	// fallback). After all hosts are healthy again every window must meet the bound - without any rebuild.
+	whsh := run.NewShard("From MV Require Import Model.Edf Model.EdfHealth.\nFrom Coq Require Import List ZArith.\nImport ListNotations.\nOpen Scope Z_scope.\n",
+		"wrrh_case", "wrrh_mismatches")
+	for ci := 0; ci < run.N(24, 240); ci++ {
+		pool := wpools[ci%len(wpools)]
+		D := uint64(1)
+		for _, w := range pool {
+			D = lcm64(D, uint64(w))
+		}
+		n := 2 + r.Intn(3)
+		ws := make([]uint32, n)
+		for i := range ws {
+			ws[i] = pool[r.Intn(len(pool))]
+		}
+		if ci == 0 { // the shape of the recovered heavy host: weights 1,2,5 -> pool {4,2,1}: 1,2,4 with the heaviest down at build time
+			n, ws = 3, []uint32{1, 2, 4}
+		}
+		alleq := true
+		for _, w := range ws {
+			if w != ws[0] {
+				alleq = false
+			}
+		}
+		if alleq {
+			ws[0] = pool[0]
+			if ws[0] == ws[1] {
+				ws[0] = pool[1]
+			}
+		}
+		var hosts []types.Host
+		idx := map[string]int{}
+		hs := make([]types.Host, n)
+		for i := 0; i < n; i++ {
+			addr := fmt.Sprintf("10.67.%d.%d:%d", ci%250, i, 3000+ci/250)
+			h := cluster.NewSimpleHost(v2.Host{HostConfig: v2.HostConfig{Address: addr, Weight: ws[i]}}, winfo)
+			h.ClearHealthFlag(api.FAILED_ACTIVE_HC)
+			h.ClearHealthFlag(api.FAILED_OUTLIER_CHECK)
+			hs[i] = h
+			hosts = append(hosts, h)
+			idx[addr] = i
+		}
+		unh := make([]bool, n)
+		setUnh := func(i int, v bool) {
+			unh[i] = v
+			if v {
+				hs[i].SetHealthFlag(api.FAILED_ACTIVE_HC)
+			} else {
+				hs[i].ClearHealthFlag(api.FAILED_ACTIVE_HC)
+			}
+		}
+		nHealthy := func() int {
+			c := 0
+			for _, u := range unh {
+				if !u {
+					c++
+				}
+			}
+			return c
+		}
+		// unhealthy at build time: a non-empty proper subset (case 0: the heaviest host)
+		if ci == 0 {
+			setUnh(2, true)
+		} else {
+			for i := 0; i < n; i++ {
+				if r.Pct(45) && nHealthy() > 1 {
+					setUnh(i, true)
+				}
+			}
+			if nHealthy() == n {
+				setUnh(r.Intn(n), true)
+			}
+		}
+		builtUnh := append([]bool{}, unh...)
+		lb := cluster.NewLoadBalancer(winfo, cluster.NewHostSet(hosts))
+		var obs []string
+		var obsJ []interface{}
+		bad := ""
+		flags := func() string {
+			var xs []string
+			for _, u := range unh {
+				if u {
+					xs = append(xs, "true")
+				} else {
+					xs = append(xs, "false")
+				}
+			}
+			return CoqList(xs)
+		}
+		pick := func(record bool) int {
+			h := lb.ChooseHost(nil)
+			if h == nil {
+				if bad == "" {
+					bad = fmt.Sprintf("ChooseHost returned nil with %d healthy hosts", nHealthy())
+				}
+				return -1
+			}
+			i := idx[h.AddressString()]
+			if unh[i] && bad == "" {
+				bad = fmt.Sprintf("ChooseHost returned the unhealthy host %d", i)
+			}
+			if record {
+				obs = append(obs, fmt.Sprintf("(%s, %d%%nat)", flags(), i))
+				obsJ = append(obsJ, map[string]interface{}{"unhealthy": append([]bool{}, unh...), "picked": i})
+			}
+			return i
+		}
+		// phase A: picks while some hosts are unhealthy, with further flips
+		ka := 0
+		if ci != 0 && r.Pct(60) {
+			ka = 1 + r.Intn(10)
+		}
+		for k := 0; k < ka; k++ {
+			pick(true)
+			if r.Pct(25) {
+				i := r.Intn(n)
+				if unh[i] || nHealthy() > 1 {
+					setUnh(i, !unh[i])
+				}
+			}
+		}
+		// recovery: every host healthy again, no rebuild
+		for i := 0; i < n; i++ {
+			setUnh(i, false)
+		}
+		var win []int
+		for k := 0; k < run.N(200, 800) && bad == ""; k++ {
+			win = append(win, pick(k < 40))
+		}
+		rep := map[string]interface{}{"part": "wrr-balancer-health-flips", "D": D, "weights": ws, "unhealthy_at_build": builtUnh, "observed": obsJ}
+		run.Count(fmt.Sprintf("wrrh|%v|%v|%d", ws, builtUnh, ka), true, "wrr-health-flips")
+		if bad == "" {
+			if b := edfWindowViolation(ws, win); b != "" {
+				bad = "all hosts healthy again (no rebuild), some were unhealthy when the balancer was built: " + b
+			}
+		}
+		if bad != "" {
+			run.Fail("wrr:window-bound-after-health-flip", bad, rep)
+		}
+		var wsz []string
+		for _, w := range ws {
+			wsz = append(wsz, CoqZ(int64(w)))
+		}
+		whsh.Add(fmt.Sprintf("(%d, %s, %s)", D, CoqList(wsz), CoqList(obs)), map[string]interface{}{"part": "wrr-balancer-health-flips", "D": D, "weights": ws, "unhealthy_at_build": builtUnh, "nobs": len(obs)})
+		for i := 0; i < n; i++ {
+			hs[i].ClearHealthFlag(api.FAILED_ACTIVE_HC)
+		}
+	}
+	whsh.Close()
 	return run.Finish()
 }
 
